@@ -214,8 +214,17 @@ CLAIMED = {
             'the current .pyx text, cross-validated bit-for-bit against the '
             'compiled kernels) return the fraction of sub-pixel centres '
             'strictly inside the shape for symbolic pixel corner, sizes and '
-            'rotation, subpixels 1..3; cached bbox/edges follow attribute '
-            're-assignment.',
+            'rotation, subpixels 1..3; the exact circle kernel, algebraic '
+            'skeleton: the quadrant split of circular_overlap_single_exact '
+            'calls the core only on first-quadrant rectangles that are '
+            'images, under a symmetry of the circle, of sub-rectangles '
+            'tiling the pixel (areas add up, interiors disjoint) and sums '
+            'their values; circular_overlap_core returns 0 / the full area '
+            'exactly when no / every point of the rectangle is inside, and '
+            'otherwise its chord end points lie on the circle and on the '
+            'pixel boundary, the arc term is called once with them and the '
+            'rest equals the shoelace area of (corners inside + end '
+            'points); cached bbox/edges follow attribute re-assignment.',
             'reals for floats (float64 sliver of from_float outside); exact '
             'kernels: arc-area correctness (asin) not addressed, so "sums '
             'to the analytic area" and weights in [0,1] for exact masks are '
